@@ -467,8 +467,11 @@ func (s *clientSocket) emitBuffered() {
 			send := !hasAckFunc
 			sent, ok := ackIDs[*event.header.ID]
 			if ok && sent {
+				// Already answered (by the handler itself, or for an earlier buffered
+				// event with the same ID): go on with the next buffered event. Returning
+				// here would drop the remaining buffered events and leave sendBuffer unflushed.
 				mu.Unlock()
-				return
+				continue
 			}
 			ackIDs[*event.header.ID] = true
 			mu.Unlock()
@@ -858,8 +861,13 @@ func (s *clientSocket) _sendBuffers(volatile, forceSend bool, ackID *uint64, buf
 			}
 		}
 
+		// Until the server has answered the CONNECT packet this socket is not attached to its
+		// namespace: the server closes the whole connection (and with it every other namespace
+		// multiplexed on it) if it receives a packet for a namespace that is not joined.
+		// So packets emitted while the CONNECT is pending are buffered, and are flushed
+		// by emitBuffered once the CONNECT reply arrives.
 		s.stateMu.RLock()
-		sendImmediately := s.state == clientSocketConnStateConnected || s.state == clientSocketConnStateConnectPending
+		sendImmediately := s.state == clientSocketConnStateConnected
 		s.stateMu.RUnlock()
 		if sendImmediately || forceSend {
 			s.manager.packet(packets...)
